@@ -33,7 +33,10 @@ StackAgrees(ev) ==
   /\ Len(ev.stack) = Len(stack')
   /\ \A k \in DOMAIN stack' :
        /\ ev.stack[k].size = stack'[k].size /\ ev.stack[k].map = stack'[k].map
-       /\ ev.stack[k].rt = stack'[k].rt /\ ev.stack[k].ra = stack'[k].ra
+       /\ ev.stack[k].rt = stack'[k].rt
+       \* the return address is meaningful only once EXEC has entered the frame (-1 = not yet set in the specification);
+       \* what the implementation keeps there before is not observable and not constrained
+       /\ (stack'[k].ra # -1 => ev.stack[k].ra = stack'[k].ra)
        /\ (Has("g") => ev.stack[k].base = stack'[k].base)
        \* the words of the frame, wherever the implementation keeps them
        /\ ev.stack[k].words = SubSeq(data', stack'[k].base + 1, stack'[k].base + stack'[k].size)
